@@ -224,6 +224,16 @@ fn cli_level(rep: &Report) {
     };
     // in_kind 0: FILE argument; 1: the file arrives on a stdin pipe; 2: the FILE argument is a named pipe
     let mut jobs: Vec<(String, Vec<u8>, bool, bool, u8, u8)> = vec![];
+    // authentic files whose LAST chunk is 64 KiB of zero bytes (a disk image): the output must still be all of P
+    let mut pz = plaintext(seed ^ 0x3f, 2 * CS);
+    pz[CS..].iter_mut().for_each(|b| *b = 0);
+    let fz = r::write_key_file(&alice.sk, &bob.pk, &derive32(seed, "c03-cli-ez"), &derive32(seed, "c03-cli-pz"), &pz, &[CS, CS]).unwrap();
+    let qz = r::write_pass_file_with_key(&r::pass_key(b"filepw", &salt), &salt, &pz, &[CS, CS]);
+    for (mode, file) in [("key", &fz), ("pass", &qz)] {
+        for out_kind in 0..3u8 {
+            jobs.push((format!("{}/authentic-zero-final-chunk", mode), file.clone(), true, mode == "key", out_kind, 0));
+        }
+    }
     for (mode, file, h) in [("key", &f, 132usize), ("pass", &q, 36usize)] {
         for (en, bytes, ok) in edits(file, h) {
             for out_kind in 0..3u8 {
@@ -266,10 +276,11 @@ fn cli_level(rep: &Report) {
                 if !*should_accept {
                     return Err(format!("{} ({}): an edited file was accepted (exit 0, {} bytes out)", name, wname, got.len()));
                 }
-                if got != p {
-                    return Err(format!("{} ({}): decryption succeeded but the output ({} bytes) is not identical to the complete original plaintext ({} bytes)", name, wname, got.len(), p.len()));
+                let want: &Vec<u8> = if name.ends_with("zero-final-chunk") { &pz } else { &p };
+                if got != *want {
+                    return Err(format!("{} ({}): decryption succeeded but the output ({} bytes) is not identical to the complete original plaintext ({} bytes)", name, wname, got.len(), want.len()));
                 }
-            } else if *should_accept && name.ends_with("authentic") {
+            } else if *should_accept && (name.ends_with("authentic") || name.ends_with("zero-final-chunk")) {
                 return Err(format!("{} ({}): authentic file rejected: {}", name, wname, out.summary()));
             }
             Ok(())
